@@ -340,6 +340,41 @@ def run(ctx):
                     viol.append({"history": "greeting %r, then a normal server; connect(starttls=%s, authmech=%r)" % (bye.decode("latin-1"), want_tls, mech),
                                  "what": p_, "writes": [("tls" if t else "plain", b[:40].decode("latin-1")) for t, b in s.wire.writes]})
 
+    # 3c. the final OK of the greeting (or of the listing after the handshake) carries its text as a LITERAL — `{n}` or the
+    #     non-synchronizing `{n+}` — and the text itself looks like a status line; the server then REFUSES the credentials.
+    #     Whatever the client makes of the literal, a left-over "OK ..." line must never be taken for the answer to AUTHENTICATE
+    class LitGreeting(refserver.RefServer):
+        lit_text, lit_form, where = b"", b"{%d}", "greeting"
+
+        def _ok(self):
+            return b"OK " + (self.lit_form % len(self.lit_text)) + b"\r\n" + self.lit_text + b"\r\n"
+
+        def greeting(self):
+            return self.caps() + (self._ok() if self.where == "greeting" else b'OK "ready"\r\n')
+
+        def tls_started(self):
+            self.tls = True
+            return self.caps() + (self._ok() if self.where == "tls" else b'OK "TLS negotiation successful."\r\n')
+    for text in (b"OK, TLS is optional here", b'OK "Logged in."', b"OK", b"ok (SASL \"x\") done", b"NO then\r\nOK now", b"BYE"):
+        for form in (b"{%d}", b"{%d+}"):
+            for where in ("greeting", "tls"):
+                for pw_ok in (False, True):
+                    srv = LitGreeting(r, starttls=True, sasl=b"PLAIN", post_tls_sasl=b"PLAIN", users={b"user": b"pw" if pw_ok else b"other"})
+                    srv.lit_text, srv.lit_form, srv.where = text, form, where
+                    s = msref.Session()
+                    want_tls = where == "tls"
+                    out = s.connect(b"", [], "user", "pw", starttls=want_tls, server=srv)
+                    evals += 1
+                    nontriv += 1
+                    o2 = s.op("listscripts") if "res=b1" in out else ""
+                    probs = check_writes(s.wire.writes, want_tls, srv.authed)
+                    if ("res=b1" in out or "auth=b1" in out) and not srv.authed:
+                        probs.append("connect returned True / the client is marked authenticated, but the server answered AUTHENTICATE with NO")
+                    for p_ in probs:
+                        viol.append({"history": "%s ends with OK %s + %r, credentials %s; connect(starttls=%s) then listscripts" % (
+                            where, (form % len(text)).decode(), text, "right" if pw_ok else "wrong", want_tls), "what": p_,
+                            "writes": [("tls" if t else "plain", b[:40].decode("latin-1")) for t, b in s.wire.writes]})
+
     # 4. random sessions: the ordering oracle on every write log
     for i in range(60 if ctx.tier == "quick" else 600):
         steps, srv, s = corr_client.run_session(r, r.randint(1, 8), {"version": r.random() < 0.5}, allow_faults=True)
